@@ -145,13 +145,22 @@ package sonic
 //@   modifies nothing
 
 //@ func (*listener).Close
-//@   prop C01, C03
+//@   prop C01, C03, C13
 //@   requires lInv(l)
-//@   ensures [disarmed] !lArmed(l) && !internal.armed(&l.slot, internal.PollerWriteEvent)
-//@   ensures [accounting] l.ioc.poller.pending == old(l.ioc.poller.pending) - (old(lArmed(l)) ? 1 : 0) - (old(internal.armed(&l.slot, internal.PollerWriteEvent)) ? 1 : 0)
+//@   // only the first Close touches the descriptor (see packetConn.Close)
+//@   assert call syscall.Close: [C13 first-close-only] old(l.closed) == 0 && arg0 == l.slot.Fd
+//@   ensures [C13 already-closed] old(l.closed) != 0 ==> l.closed == old(l.closed) && (forall k :: FDOPEN[k] == old(FDOPEN[k]))
+//@   ensures [disarmed] old(l.closed) == 0 ==> !lArmed(l) && !internal.armed(&l.slot, internal.PollerWriteEvent) && l.closed == 1
+//@   ensures [accounting] old(l.closed) == 0 ==> l.ioc.poller.pending == old(l.ioc.poller.pending) - (old(lArmed(l)) ? 1 : 0) - (old(internal.armed(&l.slot, internal.PollerWriteEvent)) ? 1 : 0)
+//@   ensures [C13 released] old(l.closed) == 0 ==> FDOPEN[l.slot.Fd] == 0
 
 //@ func (*packetConn).Close
-//@   prop C01, C03
+//@   prop C01, C03, C13
 //@   requires pcInv(c)
-//@   ensures [disarmed] !pcArmedR(c) && !pcArmedW(c) && c.closed == 1
-//@   ensures [accounting] c.ioc.poller.pending == old(c.ioc.poller.pending) - (old(pcArmedR(c)) ? 1 : 0) - (old(pcArmedW(c)) ? 1 : 0)
+//@   // only the first Close touches the descriptor: a later one cannot close a descriptor number
+//@   // that the kernel may meanwhile have handed to someone else
+//@   assert call syscall.Close: [C13 first-close-only] old(c.closed) == 0 && arg0 == c.slot.Fd
+//@   ensures [C13 already-closed] old(c.closed) != 0 ==> c.closed == old(c.closed) && (forall k :: FDOPEN[k] == old(FDOPEN[k]))
+//@   ensures [disarmed] old(c.closed) == 0 ==> !pcArmedR(c) && !pcArmedW(c) && c.closed == 1
+//@   ensures [accounting] old(c.closed) == 0 ==> c.ioc.poller.pending == old(c.ioc.poller.pending) - (old(pcArmedR(c)) ? 1 : 0) - (old(pcArmedW(c)) ? 1 : 0)
+//@   ensures [C13 released] old(c.closed) == 0 ==> FDOPEN[c.slot.Fd] == 0
